@@ -26,6 +26,10 @@ IMPLICIT_REQ = {
     # description must be complete at that point, or the value of the object changes
     ("clear_generators_up_to_date", 0): [("this", "CU", True), ("this", "PG", False), ("this", "PC", False)],
     ("clear_constraints_up_to_date", 0): [("this", "GU", True), ("this", "PC", False), ("this", "PG", False)],
+    # rows become pending only on two minimized descriptions (Status::OK); the incremental conversion that
+    # integrates them later starts from exactly that state
+    ("set_constraints_pending", 0): [("this", "CM", True), ("this", "GM", True), ("this", "PG", False)],
+    ("set_generators_pending", 0): [("this", "CM", True), ("this", "GM", True), ("this", "PC", False)],
     ("clear_constraints_minimized", 0): [("this", "PC", False), ("this", "PG", False)],
     ("clear_generators_minimized", 0): [("this", "PC", False), ("this", "PG", False)],
 }
@@ -89,6 +93,8 @@ def entails(st, atom, val):
         return st.get("SP") is True and st.get("PC") is False
     if atom == "PC" and val is True:
         return st.get("SP") is True and st.get("PG") is False
+    if atom in ("CM", "GM") and val is True:
+        return st.get("PC") is True or st.get("PG") is True
     # a non-empty polyhedron always has at least one description up to date (Polyhedron::OK)
     if atom == "CU" and val is True:
         return st.get("CM") is True or st.get("PC") is True or st.get("PG") is True or st.get("GU") is False
@@ -307,8 +313,8 @@ def discharge(ctx, rid, exceptions=None, judged_atoms=("PG", "PC", "CU", "GU", "
             ro = obj_key(f, f.call_obj(c))
             obl = []
             for o, a, v in req[key]:
-                if a not in judged_atoms:
-                    continue
+                if a not in judged_atoms and (o, a, v) not in IMPLICIT_REQ.get(key, ()):
+                    continue      # tabled implicit preconditions are judged whatever their atom
                 tgt = ro if o == "this" else obj_key(f, f.call_args(c)[o])
                 if tgt is None:
                     skipped += 1
